@@ -22,6 +22,9 @@ CONSTANTS Topics,        \* {"t1","t2"}
           RetryMax,      \* Metadata.Retry.Max
           Fam,           \* "content" | "reach" | "conc": which part of the alphabet is explored
           BothOrders,    \* TRUE: both initial seed orders (NewClient shuffles the seeds)
+          Kinds,         \* how a candidate that does not answer misbehaves (subset of KSeq's elements)
+          MixKinds,      \* TRUE: besides one kind for all failing candidates also rotations (a different kind each)
+          MaxDown,       \* at most this many failing candidates per refresh
           EmitCases
 
 Parts == {0, 1}
@@ -39,10 +42,12 @@ Off == [on |-> FALSE, err |-> "none", leader |-> 1, rv |-> 1]
 Desc(e, l, r) == [on |-> TRUE, err |-> e, leader |-> l, rv |-> r]
 
 VARIABLES world, seeds, dead, cbrokers, cctrl, cstored, cparts, ccached, call, cwr, cmtopics,
-          ref, pc, attempts, req, down, result, anyUp, created, hist
+          ref, pc, attempts, req, beh, result, anyUp, created, hist
 
 cvars == <<seeds, dead, cbrokers, cctrl, cstored, cparts, ccached, call, cwr, cmtopics>>
-vars == <<world, cvars, ref, pc, attempts, req, down, result, anyUp, created, hist>>
+vars == <<world, cvars, ref, pc, attempts, req, beh, result, anyUp, created, hist>>
+\* beh: candidate endpoint -> kind of misbehaviour, for the candidates that do not answer this refresh
+down == DOMAIN beh
 
 -----------------------------------------------------------------------------
 (* ---------- the world and the responses it serves ---------- *)
@@ -120,17 +125,30 @@ Reqs == IF Fam = "reach" THEN {<<>>, <<"t1">>}
 
 Known == {cbrokers[id] : id \in {i \in BIds : cbrokers[i] # "-"}}
 Candidates == Range(seeds) \cup Range(dead) \cup Known
-Downs == IF Fam = "reach" THEN SUBSET Candidates ELSE {{}}
+(* A candidate either answers or misbehaves in one of these ways. In the code as it is every one of
+   them ends in the `default:` branch of tryRefreshMetadata's error switch (io.EOF, timeout, refused
+   dial, and PacketDecodingError from an undecodable frame / wrong correlation id / trailing bytes
+   alike): broker.Close(), deregisterBroker, next candidate. So the kind does not change the
+   transitions below; it is part of the behaviour handed to the harness, which makes the peer
+   misbehave exactly that way.                                                                   *)
+KSeq == <<"refuse", "reset", "close", "garbage", "corrid", "trailing", "silent">>
+KS == SelectSeq(KSeq, LAMBDA k : k \in Kinds)
+Pos(e) == CHOOSE i \in 1..Len(EPSeq) : EPSeq[i] = e
+KindMaps(d) == {[e \in d |-> k] : k \in Kinds}
+               \cup (IF MixKinds THEN {[e \in d |-> KS[((Pos(e) + r) % Len(KS)) + 1]] : r \in 0..(Len(KS) - 1)} ELSE {})
+DownSets(C) == IF Fam = "reach" THEN {d \in SUBSET C : Cardinality(d) <= MaxDown} ELSE {{}}
+Behs(C) == UNION {KindMaps(d) : d \in DownSets(C)}
 
 -----------------------------------------------------------------------------
 (* ---------- JSON shape of a behaviour step (what the Go harness replays) ---------- *)
 WorldJson(w) ==
   [brokers |-> BrokerSeq(w), ctrl |-> w.ctrl,
    topics |-> [i \in 1..Len(TSeq) |-> <<TSeq[i], w.ts[TSeq[i]], TopicEntry(w, TSeq[i])[3]>>]]
-\* hist keeps the raw step <<mutation name, world, request, down set>>; JSON only when emitted
+\* hist keeps the raw step <<mutation name, world, request, beh>>; JSON only when emitted
 StepRaw(m, w, rq, d) == <<m, w, rq, d>>
 StepJson(h) ==
-  [mut |-> h[1], world |-> WorldJson(h[2]), req |-> h[3], down |-> SelectSeq(EPSeq, LAMBDA e : e \in h[4])]
+  [mut |-> h[1], world |-> WorldJson(h[2]), req |-> h[3], down |-> SelectSeq(EPSeq, LAMBDA e : e \in DOMAIN h[4]),
+   modes |-> LET ds == SelectSeq(EPSeq, LAMBDA e : e \in DOMAIN h[4]) IN [i \in 1..Len(ds) |-> h[4][ds[i]]]]
 
 -----------------------------------------------------------------------------
 InitWorld == IF Fam = "conc" THEN W0conc ELSE W0
@@ -143,18 +161,18 @@ Init ==
   /\ ref = RefInit
   /\ pc = "try" /\ attempts = RetryMax /\ req = <<>> /\ result = "none" /\ created = FALSE
   \* client creation (NewClient: full refresh) with a subset of the seeds unreachable
-  /\ down \in (IF Fam = "reach" THEN SUBSET Seeds ELSE {{}})
-  /\ anyUp = (Seeds \ down # {})
-  /\ hist = <<StepRaw("create", InitWorld, <<>>, down)>>
+  /\ beh \in Behs(Seeds)
+  /\ anyUp = (Seeds \ DOMAIN beh # {})
+  /\ hist = <<StepRaw("create", InitWorld, <<>>, beh)>>
 
 \* the environment changes the cluster, then somebody calls RefreshMetadata(req...)
 Begin ==
   /\ pc = "idle" /\ created /\ Len(hist) < MaxSteps + 1
-  /\ \E mu \in Muts(world), rq \in Reqs, d \in Downs :
+  /\ \E mu \in Muts(world), rq \in Reqs, b \in Behs(Candidates) :
        /\ world' = mu.w
-       /\ req' = rq /\ down' = d
-       /\ anyUp' = (Candidates \ d # {})
-       /\ hist' = Append(hist, StepRaw(mu.m, mu.w, rq, d))
+       /\ req' = rq /\ beh' = b
+       /\ anyUp' = (Candidates \ DOMAIN b # {})
+       /\ hist' = Append(hist, StepRaw(mu.m, mu.w, rq, b))
   /\ pc' = "try" /\ attempts' = RetryMax /\ result' = "none"
   /\ UNCHANGED <<cvars, ref, created>>
 
@@ -201,7 +219,7 @@ TrySeed ==
      THEN /\ seeds' = Tail(seeds) /\ dead' = Append(dead, Head(seeds))     \* deregisterBroker(seed)
           /\ UNCHANGED <<cbrokers, cctrl, cstored, cparts, ccached, call, cwr, cmtopics, ref, pc, attempts, result, created>>
      ELSE Apply /\ UNCHANGED <<seeds, dead>>
-  /\ UNCHANGED <<world, req, down, anyUp, hist>>
+  /\ UNCHANGED <<world, req, beh, anyUp, hist>>
 
 TryBroker(id) ==                                                          \* any(): SOME registered broker
   /\ pc = "try" /\ seeds = <<>> /\ cbrokers[id] # "-"
@@ -209,7 +227,7 @@ TryBroker(id) ==                                                          \* any
      THEN /\ cbrokers' = [cbrokers EXCEPT ![id] = "-"]                    \* deregisterBroker(broker)
           /\ UNCHANGED <<seeds, dead, cctrl, cstored, cparts, ccached, call, cwr, cmtopics, ref, pc, attempts, result, created>>
      ELSE Apply /\ UNCHANGED <<seeds, dead>>
-  /\ UNCHANGED <<world, req, down, anyUp, hist>>
+  /\ UNCHANGED <<world, req, beh, anyUp, hist>>
 
 Exhausted ==                                                              \* no candidate left
   /\ pc = "try" /\ seeds = <<>> /\ \A id \in BIds : cbrokers[id] = "-"
@@ -217,7 +235,7 @@ Exhausted ==                                                              \* no 
   /\ IF attempts > 0
      THEN attempts' = attempts - 1 /\ UNCHANGED <<pc, result, created>>
      ELSE Finish("oob", FALSE) /\ UNCHANGED attempts
-  /\ UNCHANGED <<world, cbrokers, cctrl, cstored, cparts, ccached, call, cwr, cmtopics, ref, req, down, anyUp, hist>>
+  /\ UNCHANGED <<world, cbrokers, cctrl, cstored, cparts, ccached, call, cwr, cmtopics, ref, req, beh, anyUp, hist>>
 
 Next == Begin \/ TrySeed \/ (\E id \in BIds : TryBroker(id)) \/ Exhausted
 Spec == Init /\ [][Next]_vars
@@ -259,7 +277,7 @@ TypeOK == /\ pc \in {"idle", "try"} /\ attempts \in 0..RetryMax
           /\ Range(seeds) \cap Range(dead) = {} /\ Range(seeds) \cup Range(dead) = Seeds
 
 \* model-checking view: the recorded behaviour itself is not part of the state
-MCView == <<world, cvars, ref, pc, attempts, req, down, result, anyUp, created, Len(hist)>>
+MCView == <<world, cvars, ref, pc, attempts, req, down, result, anyUp, created, Len(hist)>>   \* the kind is not part of the view: see KSeq
 
 \* role 2: every maximal behaviour is one JSON case
 Terminal == pc = "idle" /\ (Len(hist) = MaxSteps + 1 \/ ~created)
